@@ -281,10 +281,74 @@ def r4(run, ctx):
             run.check('R4', cfg.dominates(reap, n), 'the redirector is stopped after the workers '
                       'were reaped (late output is still captured)', st, n.ast)
     rr = ctx.fn(R + 'remove_redirections')
-    t = norm_text(rr.node)
-    run.check('R4', 'self.remove_fd(fileno)' in t and 'except ValueError' in t,
+    cfgr = ctx.cfg(rr)
+    loops_ = [h for h in cfgr.nodes if h.kind == 'iter']
+    rm = [n for n in ctx.live_nodes(rr) if any(astq.call_last(c) == 'remove_fd' for c in n.calls())]
+    in_loop = bool(rm) and all(any(n.id in cfgr.branch_nodes(h, 'true') for h in loops_)
+                               for n in rm)
+    tolerant = True
+    for c in ast.walk(rr.node):
+        if isinstance(c, ast.Call) and astq.call_last(c) == 'fileno':
+            covered = False
+            for t in ast.walk(rr.node):
+                if isinstance(t, ast.Try) and any(sub is c for st_ in t.body
+                                                  for sub in ast.walk(st_)):
+                    for h in t.handlers:
+                        names = [(dotted(e) or '').split('.')[-1] for e in (
+                            h.type.elts if isinstance(h.type, ast.Tuple) else [h.type])] \
+                            if h.type is not None else ['*']
+                        covered = covered or bool({'ValueError', 'Exception', '*'} & set(names))
+            tolerant = tolerant and covered
+    run.check('R4', in_loop and tolerant,
               'remove_redirections forgets each pipe (tolerating an already closed one)', rr,
               rr.node)
+    # ... and only descriptors that are this process's NOW: the fileno() of one of its own
+    # pipe objects, or a key of the table whose entry is this very process - never a number
+    # remembered from earlier (the number may belong to the replacement by now)
+    def enclosing_fors(call):
+        out = []
+
+        def rec(n, stack):
+            if n is call:
+                out.extend(stack)
+                return
+            for ch in ast.iter_child_nodes(n):
+                rec(ch, stack + [n] if isinstance(n, ast.For) else stack)
+        rec(rr.node, [])
+        return out
+    for c in ast.walk(rr.node):
+        if not (isinstance(c, ast.Call) and astq.call_last(c) == 'remove_fd' and c.args):
+            continue
+        arg = astq.resolve_local(rr.node, c.args[0])
+        fors = enclosing_fors(c)
+        own = False
+        if isinstance(arg, ast.Call) and astq.call_last(arg) == 'fileno' and \
+                isinstance(arg.func.value, ast.Name):
+            pn = arg.func.value.id
+            own = any('get_process_pipes(process)' in norm_text(fl.iter) and
+                      pn in {x.id for x in ast.walk(fl.target) if isinstance(x, ast.Name)}
+                      for fl in fors)
+        elif isinstance(arg, ast.Name):
+            for fl in fors:
+                names = {x.id for x in ast.walk(fl.target) if isinstance(x, ast.Name)}
+                if arg.id in names and 'self.pipes' in norm_text(fl.iter):
+                    node = [n for n in cfgr.nodes if any(cc is c for cc in n.calls())]
+
+                    def mine(e, names=names):
+                        if isinstance(e, ast.Compare) and len(e.ops) == 1 and \
+                                isinstance(e.ops[0], (ast.Is, ast.Eq)):
+                            a, b = norm_text(e.left), norm_text(e.comparators[0])
+                            if 'process' in (a, b) and ({a, b} - {'process'}) and \
+                                    (({a, b} - {'process'}).pop() in names or
+                                     'self.pipes[' in ({a, b} - {'process'}).pop()):
+                                return True
+                        return None
+                    own = bool(node) and guarded(cfgr, node[0], mine, True)
+        run.check('R4', own, 'remove_redirections drops only descriptors that belong to this '
+                  'process now', rr, c, 'remove_redirections drops a descriptor NUMBER it '
+                  'remembered: when the worker was reaped and replaced meanwhile that number is '
+                  "the successor's pipe, whose output is then lost",
+                  construct='STALE-FD-NUMBER')
 
 
 def r5(run, ctx):
